@@ -713,7 +713,7 @@ func ruleNodeLookup(r *Run, rule string, k *vecKind) {
 	var sinks []*ssa.Call
 	allInstrs(fn, func(in ssa.Instruction) {
 		if call, ok := isBuiltinCall(in, "append"); ok {
-			if types.TypeString(call.Type(), nil) == "[][]float32" {
+			if tstr(call.Type(), nil) == "[][]float32" {
 				sinks = append(sinks, call)
 			}
 		}
